@@ -8,7 +8,7 @@ HERE = os.path.dirname(os.path.abspath(__file__))
 if HERE not in sys.path:
     sys.path.insert(0, HERE)
 
-import drive, gen, vlib, model, pairs, arith, history, fresh  # noqa: E402
+import drive, gen, vlib, model, pairs, arith, history, fresh, interrupt, render  # noqa: E402
 
 BATCH = 1200     # traces per TLC start (JSON loading dominates; keeps the heap small)
 
@@ -181,6 +181,51 @@ def model_stage(R, prop, tier, rules=None, export_mod=0, c03=False, known=None):
                           expected_actions=[(a['tag'], a['subj']) for a in c0['acts']]))
 
 
+def render_stage(R, tier):
+    "C18: report/dump/json of counted elections, parsed into fields, against the record (Render.tla)"
+    rng = random.Random(vlib.seed() * 1000003 + 1818)
+    recs, meta = [], {}
+    rid = 0
+    n = 60 if tier == 'quick' else 800
+    for i in range(n):
+        pr = gen.randprofile(rng, maxc=6, maxlines=8, maxm=4, wd=True, und=True, eq=False)
+        blt = drive.mkblt(**pr)
+        for rule in drive.RULES:
+            opts = dict(rule=rule)
+            if rule in ('wigm', 'meek', 'warren') and rng.random() < 0.7:
+                opts = rng.choice(gen.configs(rule, all_=True))[0]
+                if rule != 'wigm' and opts.get('arithmetic') == 'rational':
+                    opts = dict(rule=rule)
+            if rng.random() < 0.2:
+                opts['display'] = rng.choice([0, 1, 2, 6])
+            T = drive.run_count(blt, opts, keepE=True, want_ballots=False)
+            R.cov['evaluations'] += 1
+            if T['outcome'] != 'ok':
+                continue
+            try:
+                X = render.build(T['_E'])
+            except Exception as e:
+                R.violation('C18: a rendering of a completed count fails: %s: %s (rule %s)' % (type(e).__name__, e, rule), dict(blt=blt, options=opts))
+                continue
+            rid += 1
+            X['id'] = rid
+            recs.append(X)
+            meta[rid] = (blt, opts)
+    for lo in range(0, len(recs), 500):
+        chunk = recs[lo:lo + 500]
+        out, res = vlib.judge_render(chunk, workers=16)
+        R.add_tlc(res)
+        R.cov['traces_validated_against_impl'] += len(chunk)
+        for x in chunk:
+            fails = out[x['id']]
+            if fails:
+                blt, opts = meta[x['id']]
+                cl, k = fails[0]
+                R.violation('C18: rendering disagrees with the record: %s at action %d (%s)' % (cl, k, opts), dict(blt=blt, options=opts, failed=fails))
+    R.stage('renderings judged by Render.tla', elections=len(recs))
+    R.cov['distinct_nontrivial'] += len(recs)
+
+
 def check_counts(prop, tier):
     R = vlib.Result(prop, tier)
     rng = random.Random(vlib.seed() * 1000003 + int(prop[1:]))
@@ -266,6 +311,8 @@ def check_counts(prop, tier):
                 if len(traces) >= BATCH:
                     flush()
     flush()
+    if prop == 'C18':
+        render_stage(R, tier)
     if prop == 'C07':
         pair_stage(R, prop, pairs.gen_c07e(rng, 30 if tier == 'quick' else 500, drive.RULES), known)
     R.cov['distinct_nontrivial'] += len(inputs)
@@ -525,16 +572,25 @@ def check_c20(tier):
     H = [(history.BLTS[i % len(history.BLTS)], o, lp) for i, (o, lp) in enumerate(history.HISTORY_CONFIGS)]
     targets = [(b, o, lp) for (o, lp) in history.TARGET_CONFIGS for b in history.BLTS[:2 if tier == 'quick' else 3]]
     if tier == 'quick':
-        targets = rng.sample(targets, 14)
+        targets = [(history.BLTS[i % 2], o, lp) for i, (o, lp) in enumerate(history.TARGET_CONFIGS)]
     refs = history.fresh_reference(targets)
     items = []
     nh = 0
+
+    def cls_of(o):
+        r = o['rule']
+        if r in ('scotland', 'mpls', 'cfer', 'cfer-batch', 'wigm-prf', 'wigm-prf-batch', 'meek-prf'):
+            return 'fixed'
+        if r == 'qpq':
+            return 'guarded'
+        a = o.get('arithmetic', 'guarded')
+        return 'fixed' if a == 'integer' else a
     for ti, tgt in enumerate(targets):
         ref = refs[ti]
+        same = [h for h in H if cls_of(h[1]) == cls_of(tgt[1])]
         if tier == 'quick':
-            hs = [[rng.choice(H)] for _ in range(4)] + [[rng.choice(H), rng.choice(H)] for _ in range(5)] + [[rng.choice(H) for _ in range(3)] for _ in range(2)]
-            # always: every single-election history with another arithmetic class before this target
-            hs += [[h] for h in rng.sample(H, 6)]
+            # the class-level state is per arithmetic class: always run every history of the target's own class first
+            hs = [[h] for h in same] + [[rng.choice(H)] for _ in range(3)] + [[rng.choice(H), rng.choice(same)] for _ in range(2)]
         else:
             hs = [[h] for h in H] + [[a, b] for a in H for b in rng.sample(H, 6)] + [[rng.choice(H) for _ in range(rng.randint(3, 6))] for _ in range(30)]
         for hist in hs:
@@ -570,6 +626,85 @@ def check_c20(tier):
 
 def class_state_stage(R, prop, tier):
     pass
+
+
+# ----------------------------------------------------------------------------------------
+#  C19: an interrupted count can always be reported
+# ----------------------------------------------------------------------------------------
+INTR_CFG = 'SPECIFICATION Spec\nINVARIANT RenderingsSucceed\nINVARIANT MarkedOnce\nINVARIANT PrefixKept\nCONSTANTS MAXACTS = %d\n FILL_ON_DEMAND = %s\n'
+
+
+def check_c19(tier):
+    prop = 'C19'
+    R = vlib.Result(prop, tier)
+    rng = random.Random(vlib.seed() * 1000003 + 19)
+    known = known_ids()
+    fixed_f9 = any(e.get('id') == 'F9' and e.get('kind') == 'fixed' for e in vlib.load_known())
+    # (M) the abstract record/interrupt model: every interleaving of count steps, _fill assignments and the interrupt
+    res = vlib.tlc('Interrupt', INTR_CFG % (5 if tier == 'quick' else 8, 'TRUE' if (fixed_f9 or 'F9' not in known) else 'FALSE'), workers=4, heap_mb=1024, timeout=600)
+    R.add_tlc(res)
+    viol = 'is violated' in res['out']
+    R.stage('model-check Interrupt.tla', distinct_states=res['distinct'], invariant_violated=viol)
+    if 'Error:' in res['out'] and not viol:
+        raise vlib.Machinery('TLC error in Interrupt.tla:\n' + res['out'][-2000:])
+    model_says_ok = not viol
+    # (C->S) crash points on the real code
+    profiles = [gen.randprofile(rng, minc=3, maxc=5, maxlines=6, maxm=3, wd=True, und=True) for _ in range(2 if tier == 'quick' else 6)]
+    profiles.append(dict(nc=4, seats=2, lines=[(3, [1, 2]), (2, [2, 3]), (2, [3]), (1, [4, 1]), (1, [2, 1, 4])], tie=[3, 1, 2, 4], withdrawn=[], undeclared=[], eqlines=[]))
+    recs, meta = [], {}
+    rid = 0
+    per_rule = collections.Counter()
+    for pi, pr in enumerate(profiles):
+        blt = drive.mkblt(**pr)
+        for rule in drive.RULES:
+            opts, lp = gen.configs(rule, rng)[0]
+            if opts.get('arithmetic') == 'rational':
+                opts, lp = dict(rule=rule, arithmetic='fixed', precision=3), None
+            try:
+                K, full, fulljson = interrupt.full_run(blt, opts, lp)
+            except Exception as e:
+                continue
+            if tier == 'quick':
+                first = next((i for i, a in enumerate(full) if a[0] != 'log'), 0)
+                ks = set(range(1, min(K, 200) + 1, 1 if pi == len(profiles) - 1 else 3))
+                ks |= set(rng.sample(range(1, K + 1), min(K, 60)))
+            else:
+                ks = set(range(1, K + 1)) if K <= 6000 else set(range(1, 400)) | set(rng.sample(range(1, K + 1), 3000))
+            for k in sorted(ks):
+                X = interrupt.crash_record(blt, opts, k, full, fulljson, lp)
+                R.cov['evaluations'] += 1
+                if X is None:
+                    continue
+                rid += 1
+                X['id'] = rid
+                for f in ('report_exc', 'dump_exc', 'json_exc'):
+                    X.setdefault(f, '')
+                recs.append(X)
+                meta[rid] = (blt, opts, lp, k)
+                per_rule[rule] += 1
+    out, res2 = vlib.judge_intr(recs, workers=16)
+    R.add_tlc(res2)
+    R.cov['traces_validated_against_impl'] += len(recs)
+    byid = {x['id']: x for x in recs}
+    for i, names in out.items():
+        blt, opts, lp, k = meta[i]
+        X = byid[i]
+        if not X['filled'] and 'F9' in known and set(names) <= {'report_fails', 'dump_fails'}:
+            R.known_finding('F9', known['F9']['text'])
+            continue
+        R.violation('C19: interrupt at line event %d of %s: %s (%s %s)' % (k, opts, names, X.get('report_exc', ''), X.get('dump_exc', '')),
+                    dict(blt=blt, options=opts, lowprec=lp, line_event=k, record=X))
+    pre = sum(1 for x in recs if not x['filled'])
+    R.cov['distinct_nontrivial'] = len(recs)
+    R.cov['crash_points_before_header_filled'] = pre
+    R.cov['per_rule'] = dict(per_rule)
+    for x in recs[:2] + recs[len(recs) // 2:len(recs) // 2 + 1]:
+        R.sample(x)
+    R.cov['rule'] = ('every (thorough) / a stratified sample incl. every early line event (quick) of the executed lines of package code during Election.count(), '
+                     'for all 11 rule names; at each a KeyboardInterrupt is raised through sys.settrace, then report(True), dump(True), json(True) are called; '
+                     'the crash-point record is judged by TraceInterrupt.tla; the abstract model Interrupt.tla is checked exhaustively')
+    R.assumptions += ['sys.settrace line events stand for interruption points', 'the abstract model covers record.py/_fill and the three renderers only']
+    return R.finish()
 
 
 COUNT_PROPS = ('C01', 'C02', 'C04', 'C05', 'C06', 'C07', 'C08', 'C09', 'C18')
@@ -613,6 +748,8 @@ def main(argv):
             return check_arith(prop, tier)
         if prop == 'C20':
             return check_c20(tier)
+        if prop == 'C19':
+            return check_c19(tier)
         print('no check registered for', prop)
         return 2
     except vlib.Machinery as e:
